@@ -81,6 +81,16 @@ def r1(ctx):
                   expected=f"{new_state} | {m}", found=", ".join(sorted(pieces))[:200])
     else:
         ctx.fail(fi, "the working state's clusters are not replaced by copies exactly once", role="copy:clusters", found=f"{len(cl)} store(s)")
+    # ownership analysis: nothing reachable from repopulation may write an object owned by the input state
+    from .own import describe, ext_writes, ownership
+    oa = ownership(ana, REPOP)
+    bad = ext_writes(oa, fi.params[0])
+    for mm, objs in bad:
+        ctx.fail(fi, f"the caller's model state may be modified at {describe(mm)}", role=f"input-write:{short(mm.func.qualname)}:{mm.kind}",
+                 expected="only the working copy is written", found=", ".join(sorted(map(str, objs)))[:140])
+    if not bad:
+        ctx.ok(fi, f"none of the {len(oa.mutations)} mutation sites reachable from repopulation can write an object owned by the input state",
+               role="input-write")
 
 
 @rule("C08", "R2", "CMP", "recipients are exactly the clusters with fewer than 2 points, each refilled once", floor=3)
